@@ -280,7 +280,14 @@ func (r *Runner) runHarness(rel string, fn *ssa.Function, workers int) *HarnessR
 func (r *Runner) Run() int {
 	t0 := time.Now()
 	prop := r.Prop
-	L, err := Load(prop.Pkgs, prop.Hooks...)
+	hooks := append([]HookSpec{}, prop.Hooks...)
+	for _, rel := range prop.Pkgs {
+		if rel == "." {
+			// the root-package harness files include the C01/C14 harness, which needs the clipper hook
+			hooks = append(hooks, RootHooks...)
+		}
+	}
+	L, err := Load(prop.Pkgs, hooks...)
 	if err != nil {
 		fmt.Println("CHECK-BROKEN:", err)
 		return 2
